@@ -35,6 +35,11 @@ func (a Allocator) Execute(p *ir.Program) error {
 		return err
 	}
 
+	// Start from an empty temporaries list, so that running the allocator again on
+	// the same program (for example with a different naming) does not accumulate
+	// the temporaries of earlier runs.
+	p.Temporaries = nil
+
 	// Initialize an allocation. This maintains a map from operand index to
 	// variable, and a pool of free variables.
 	allocation := newallocation()
